@@ -377,7 +377,7 @@ def shard(arg):
             if mo != real[m]:
                 res.disagreements.append({'stream': 'render-' + m, 'case': case, 'model': repr(mo)[:600],
                                           'real': repr(real[m])[:600], 'sources': sources(case)})
-        lean_inh, lean_inhw = [x == 'T' for x in answers[NL * i + 2].strip('() ').split()]
+        lean_inh, lean_inhw, lean_inhs = [x == 'T' for x in answers[NL * i + 2].strip('() ').split()]
         res.streams['hypothesis'] = res.streams.get('hypothesis', 0) + 1
         if lean_inh != G.in_hypothesis(case):
             res.disagreements.append({'stream': 'hypothesis', 'case': case, 'model': repr(lean_inh),
@@ -388,6 +388,11 @@ def shard(arg):
         if lean_inhw != inhw:
             res.disagreements.append({'stream': 'hypothesis-w', 'case': case, 'model': repr(lean_inhw),
                                       'real': repr(inhw), 'sources': sources(case)})
+        inhs = G.in_hypothesis_s(case)
+        res.streams['hypothesis-s'] = res.streams.get('hypothesis-s', 0) + 1
+        if lean_inhs != inhs:
+            res.disagreements.append({'stream': 'hypothesis-s', 'case': case, 'model': repr(lean_inhs),
+                                      'real': repr(inhs), 'sources': sources(case)})
         if inhw and not G.static_targets_wellformed(case) and G.modelled(case):
             a, b = real['inline'], real['runtime']
             res.count('ill-formed-inside-inHW:' + ('modes-agree' if a == b else
@@ -397,7 +402,7 @@ def shard(arg):
         # `runtime_eq_spec_partial` speaks (no match template defined in the file set): against the real code
         sa = answers[NL * i + 4]
         if sa == 'na':
-            res.count('spec-lean:file-set-has-match-templates')
+            res.count('spec-lean:match-templates-outside-inHS')
         else:
             so = model_outcome(sa)
             if so is None:
@@ -405,6 +410,8 @@ def shard(arg):
             else:
                 res.streams['spec-lean'] = res.streams.get('spec-lean', 0) + 1
                 res.count('spec-lean:' + (so[0] if so[0] == 'ok' else so[1]))
+                if G.case_match_tags(case):
+                    res.count('spec-lean:with-match-templates' + (':match-applied' if st.get('match-applied') or st.get('match-applied-across-files') else ''))
                 if st.get('include-found') or st.get('include-fallback'):
                     res.count('spec-lean:with-includes')
                 if so != real['runtime']:
